@@ -66,49 +66,79 @@ func classifyInterpErr(err error) map[string]any {
 func fmt64(f float64) string { return strconv.FormatFloat(f, 'g', -1, 64) }
 func fmt32(f float32) string { return strconv.FormatFloat(float64(f), 'g', -1, 32) }
 
-// refFloat is the harness's own reading of "a number as YAML reads it" (standard library only): the opaque float
-// parser handed to the model.  Integers in any YAML spelling first, then strconv.ParseFloat.
-func refFloat(s string, bits int) (float64, bool) {
-	plain := strings.ReplaceAll(s, "_", "")
-	if i, err := strconv.ParseInt(plain, 0, 64); err == nil {
-		return float64(i), true
-	}
-	if u, err := strconv.ParseUint(plain, 0, 64); err == nil {
-		return float64(u), true
-	}
-	if f, err := strconv.ParseFloat(plain, bits); err == nil {
-		return f, true
-	}
-	if f, err := strconv.ParseFloat(s, bits); err == nil {
-		return f, true
-	}
-	return 0, false
+// rawTables is the opaque part of the model's float casters (Model/InterpFloat.lean `RawFloat`), rendered from the standard
+// library on the texts of one case: strconv.ParseFloat on a text and on the text without underscores, and the conversions
+// float64(i) / float32(float64(i)) of every integer some reading of the text yields.  Which reading applies is the
+// model's business (parseYAMLFloat), not the harness's.
+type rawTables struct {
+	P64 map[string]string `json:"p64"`
+	P32 map[string]string `json:"p32"`
+	I64 map[string]string `json:"i64"`
+	I32 map[string]string `json:"i32"`
 }
 
-// floatTables renders the float parser (the opaque part of the model) on every substituted string leaf.
-func floatTables(v any, lookup template.Mapping, f64, f32 map[string]string) {
+func newRawTables() *rawTables {
+	return &rawTables{P64: map[string]string{}, P32: map[string]string{}, I64: map[string]string{}, I32: map[string]string{}}
+}
+
+func (t *rawTables) addInt(dec string, f float64) {
+	t.I64[dec] = fmt64(f)
+	t.I32[dec] = fmt32(float32(f))
+}
+
+func (t *rawTables) add(s string) {
+	plain := strings.ReplaceAll(s, "_", "")
+	for _, x := range []string{s, plain} {
+		if f, err := strconv.ParseFloat(x, 64); err == nil {
+			t.P64[x] = fmt64(f)
+		}
+		if f, err := strconv.ParseFloat(x, 32); err == nil {
+			t.P32[x] = fmt32(float32(f))
+		}
+	}
+	for _, base := range []int{0, 2, 8, 10} {
+		if i, err := strconv.ParseInt(plain, base, 64); err == nil {
+			t.addInt(strconv.FormatInt(i, 10), float64(i))
+		}
+	}
+	if u, err := strconv.ParseUint(plain, 0, 64); err == nil {
+		t.addInt(strconv.FormatUint(u, 10), float64(u))
+	}
+	// whatever the real integer caster reads (yaml.v3's sign-after-prefix spellings `0b+1`, `0o-7`)
+	if c := castByPattern("services.*.cpu_count"); c != nil {
+		if v, err := c(s); err == nil {
+			if i, ok := v.(int64); ok {
+				t.addInt(strconv.FormatInt(i, 10), float64(i))
+			}
+		}
+	}
+}
+
+func (t *rawTables) into(out map[string]any) {
+	out["p64"], out["p32"], out["i64"], out["i32"] = t.P64, t.P32, t.I64, t.I32
+}
+
+// floatTables renders the opaque float part on every substituted string leaf.
+func floatTables(v any, lookup template.Mapping, t *rawTables) {
 	switch x := v.(type) {
 	case string:
 		s, err := template.Substitute(x, lookup)
 		if err != nil {
 			return
 		}
-		if f, ok := refFloat(s, 64); ok {
-			f64[s] = fmt64(f)
-		}
-		if f, ok := refFloat(s, 32); ok {
-			f32[s] = fmt32(float32(f))
-		}
+		t.add(s)
 	case map[string]any:
 		for _, e := range x {
-			floatTables(e, lookup, f64, f32)
+			floatTables(e, lookup, t)
 		}
 	case []any:
 		for _, e := range x {
-			floatTables(e, lookup, f64, f32)
+			floatTables(e, lookup, t)
 		}
 	}
 }
+
+var rawTableKeys = []string{"p64", "p32", "i64", "i32"}
 
 func realInterpolate(raw json.RawMessage) any {
 	var a struct {
@@ -125,9 +155,10 @@ func realInterpolate(raw json.RawMessage) any {
 	lookup := func(k string) (string, bool) { v, ok := a.Env[k]; return v, ok }
 	in := core.DeepCopyVal(t).(map[string]any)
 	res, err := interpolation.Interpolate(in, interpolation.Options{LookupValue: lookup, TypeCastMapping: loader.VerifCastTable()})
-	f64, f32 := map[string]string{}, map[string]string{}
-	floatTables(t, lookup, f64, f32)
-	out := map[string]any{"f64": f64, "f32": f32, "input_unchanged": core.CanonEqual(mustJ(core.EncodeVal(in)), mustJ(core.EncodeVal(t)))}
+	rt := newRawTables()
+	floatTables(t, lookup, rt)
+	out := map[string]any{"input_unchanged": core.CanonEqual(mustJ(core.EncodeVal(in)), mustJ(core.EncodeVal(t)))}
+	rt.into(out)
 	if err != nil {
 		for k, v := range classifyInterpErr(err) {
 			out[k] = v
@@ -407,15 +438,10 @@ func realCasters(raw json.RawMessage) any {
 			}
 		}
 	}
-	// the reference float reading vs the real float casters (the model takes it as a parameter)
-	ref := map[string]any{"f64": nil, "f32": nil}
-	if f, ok := refFloat(a.S, 64); ok {
-		ref["f64"] = fmt64(f)
-	}
-	if f, ok := refFloat(a.S, 32); ok {
-		ref["f32"] = fmt32(float32(f))
-	}
-	out["ref"] = ref
+	// the opaque part of the model's float casters for this text
+	rt := newRawTables()
+	rt.add(a.S)
+	rt.into(out)
 	// the self-decoding numeric types on a string source (Model/InterpCustom.lean)
 	var dc types.DeviceCount
 	if err := loader.Transform(a.S, &dc); err == nil {
@@ -441,11 +467,7 @@ func realCasters(raw json.RawMessage) any {
 	if err := loader.Transform(a.S, &nc); err == nil {
 		nano = fmt32(float32(nc))
 	}
-	rawRef := any(nil)
-	if f, err := strconv.ParseFloat(a.S, 64); err == nil {
-		rawRef = fmt32(float32(f))
-	}
-	out["nanocpus"] = []any{nano, rawRef}
+	out["nanocpus"] = nano
 	return out
 }
 
@@ -460,10 +482,9 @@ func judgeCasters(args, real, drv json.RawMessage) *core.Verdict {
 		Table, Decode map[string]any
 		Bad           string
 		Yamlint       any
-		Ref           map[string]any
 		Devicecount   any
 		Bytes         []string
-		Nanocpus      []any
+		Nanocpus      any
 	}
 	if json.Unmarshal(real, &r) != nil || r.Bad != "" {
 		return core.Disagree("casters: " + r.Bad)
@@ -495,8 +516,8 @@ func judgeCasters(args, real, drv json.RawMessage) *core.Verdict {
 		return core.Disagree(fmt.Sprintf("Spec.yamlInt(%q)=%v but yaml.v3 gives %v", a.S, d["yamlint"], r.Yamlint))
 	}
 	for _, k := range []string{"f64", "f32"} {
-		if fmt.Sprint(r.Ref[k]) != fmt.Sprint(r.Table[k]) {
-			return core.Disagree(fmt.Sprintf("reference float reading of %q (%s) = %v but the caster gives %v", a.S, k, r.Ref[k], r.Table[k]))
+		if fmt.Sprint(d[k]) != fmt.Sprint(r.Table[k]) {
+			return core.Disagree(fmt.Sprintf("Interp.parseYAMLFloat(%q) (%s) = %v but the caster gives %v", a.S, k, d[k], r.Table[k]))
 		}
 	}
 	if fmt.Sprint(d["devicecount"]) != fmt.Sprint(r.Devicecount) {
@@ -507,8 +528,17 @@ func judgeCasters(args, real, drv json.RawMessage) *core.Verdict {
 			return core.Disagree(fmt.Sprintf("Interp.decodeUnitBytes(%q)=%v but UnitBytes.DecodeMapstructure gives %v", a.S, mb, r.Bytes))
 		}
 	}
-	if len(r.Nanocpus) == 2 && fmt.Sprint(r.Nanocpus[0]) != fmt.Sprint(r.Nanocpus[1]) {
-		return core.Disagree(fmt.Sprintf("NanoCPUs.DecodeMapstructure(%q)=%v but strconv.ParseFloat gives %v (the model takes the raw parser as its parameter)", a.S, r.Nanocpus[0], r.Nanocpus[1]))
+	// NanoCPUs(f) narrows the 64-bit reading to float32
+	wantNano := any(nil)
+	if m, ok := d["nanocpus"].(string); ok {
+		if f, err := strconv.ParseFloat(m, 64); err == nil || errors.Is(err, strconv.ErrRange) {
+			wantNano = fmt32(float32(f))
+		} else {
+			wantNano = "?" + m
+		}
+	}
+	if fmt.Sprint(wantNano) != fmt.Sprint(r.Nanocpus) {
+		return core.Disagree(fmt.Sprintf("Interp.decodeNanoCPUs(%q)=%v but NanoCPUs.DecodeMapstructure gives %v", a.S, wantNano, r.Nanocpus))
 	}
 	if fmt.Sprint(d["bool"]) != fmt.Sprint(r.Table["bool"]) {
 		return core.Disagree(fmt.Sprintf("Interp.parseBool(%q)=%v but toBoolean=%v", a.S, d["bool"], r.Table["bool"]))
@@ -615,6 +645,41 @@ var c08Envs = []map[string]string{
 var c08Keys = []string{"services", "networks", "volumes", "secrets", "configs", "a", "b", "init", "scale", "cpus", "cpu_percent", "cpu_count", "ulimits", "nofile", "hard", "soft", "ports", "target",
 	"external", "deploy", "replicas", "healthcheck", "retries", "disable", "volume", "nocopy", "read_only", "mode", "x-ext", "environment", "a.b", "", "*", "[]", "👻", "tty", "image", "command", "labels", "privileged", "internal"}
 
+// floatBranch names the branch of the model `parseYAMLFloat` (Model/InterpFloat.lean) a text takes, from the standard
+// library alone: the measured input distribution of the `c08casters` stream over the model's branches.
+func floatBranch(s string) string {
+	plain := strings.ReplaceAll(s, "_", "")
+	if _, err := strconv.ParseInt(plain, 0, 64); err == nil {
+		return "int-base0"
+	}
+	for _, pre := range []string{"0b", "-0b", "0o", "-0o"} {
+		if rest, ok := strings.CutPrefix(plain, pre); ok {
+			base := map[byte]int{'b': 2, 'o': 8}[pre[len(pre)-1]]
+			if _, err := strconv.ParseInt(strings.TrimSuffix(pre, pre[len(pre)-2:])+rest, base, 64); err == nil {
+				return "int-sign-after-prefix"
+			}
+		}
+	}
+	if _, err := strconv.ParseInt(plain, 10, 64); err == nil {
+		return "int-decimal-not-octal"
+	}
+	if _, err := strconv.ParseUint(plain, 0, 64); err == nil {
+		return "uint"
+	}
+	if _, err := strconv.ParseFloat(plain, 64); err == nil {
+		return "float-without-underscores"
+	}
+	if _, err := strconv.ParseFloat(s, 64); err == nil {
+		return "float-raw"
+	}
+	return "rejected"
+}
+
+func addCaster(ctx *core.Ctx, s string) {
+	ctx.Count("float-branch:" + floatBranch(s))
+	ctx.Add("c08casters", casterArgs{S: s})
+}
+
 func runC08(ctx *core.Ctx) {
 	pats := sortedCastPatterns()
 	texts := c08AllTexts()
@@ -622,7 +687,7 @@ func runC08(ctx *core.Ctx) {
 	// 0. casters alone: exhaustive over the text list, then seeded random digit/letter soup
 	for _, s := range texts {
 		ctx.Count("casters-listed")
-		ctx.Add("c08casters", casterArgs{S: s})
+		addCaster(ctx, s)
 	}
 	soup := []string{"0", "1", "9", "-", "+", "_", "t", "r", "u", "e", "T", "y", "Y", "o", "n", "N", "f", "F", "a", "l", "s", "S", " ", ".", "e", "x", "K", "ſ"}
 	for i := 0; i < ctx.Pick(4000, 200000); i++ {
@@ -639,19 +704,19 @@ func runC08(ctx *core.Ctx) {
 			}
 		}
 		ctx.Count("casters-random")
-		ctx.Add("c08casters", casterArgs{S: b.String()})
+		addCaster(ctx, b.String())
 	}
 	// texts for the self-decoding types: sizes with units, `all`, negatives
 	for _, o := range []string{"all", "ALL", "All", "alL ", "64m", "1gb", "512k", "1024b", "1kb", "10M", "2g", "1 m", "1mib", "3t", "1p", "-1", "-0", "010", "0x10", "1_024", "10x", "m", "1kk", "1.5g", "9007199254740993"} {
 		ctx.Count("casters-custom")
-		ctx.Add("c08casters", casterArgs{S: o})
+		addCaster(ctx, o)
 	}
 	// YAML integer spellings (tie of Spec.yamlInt), incl. the int64 boundary
 	for _, o := range []string{"0X1f", "0B11", "0O17", "0b+1", "0o-7", "0b-1", "-0b11", "-0o7", "-0b+1", "0_8", "09", "018", "+08", "0x", "0b", "0o", "0x_", "1__0", "_1", "+_1", "-_",
 		"0x7fffffffffffffff", "0x8000000000000000", "-0x8000000000000000", "-0x8000000000000001", "0xffffffffffffffff", "0x10000000000000000", "0b2", "0o8", "0xg", "00x1", "0x1p-2", "1e3", "1.0", "+", "-", "---", "-0", "+0", "0b", "0B_1", "0o_7", "-0O17", "+0x10", "0x1_0", "1_000", "2001-12-14", "12:30", "0.", ".5", "1_0.5", "010.5",
 		"00", "07", "010", "0440", "0777", "0644", "08", "0", "00000", "0777777777777777777777", "01000000000000000000000", "0777777777777777777778"} {
 		ctx.Count("casters-octal")
-		ctx.Add("c08casters", casterArgs{S: o})
+		addCaster(ctx, o)
 	}
 	for i := 0; i < ctx.Pick(300, 20000); i++ {
 		n := 1 + ctx.Rng.Intn(6)
@@ -676,13 +741,13 @@ func runC08(ctx *core.Ctx) {
 			}
 		}
 		ctx.Count("casters-octal")
-		ctx.Add("c08casters", casterArgs{S: string(b)})
+		addCaster(ctx, string(b))
 	}
 	// near the int64 boundary
 	for _, d := range []int64{-2, -1, 0} {
 		for _, base := range []int64{math.MaxInt64, math.MinInt64 + 2} {
 			ctx.Count("casters-boundary")
-			ctx.Add("c08casters", casterArgs{S: strconv.FormatInt(base+d, 10)})
+			addCaster(ctx, strconv.FormatInt(base+d, 10))
 		}
 	}
 
@@ -805,6 +870,7 @@ func runC08(ctx *core.Ctx) {
 		ctx.Add("interpolate", interpArgs{Tree: core.EncodeVal(t), Env: env})
 	}
 
+	runC08Docs(ctx)
 	runC08Loads(ctx)
 }
 
@@ -843,13 +909,24 @@ func init() {
 			var r map[string]json.RawMessage
 			json.Unmarshal(real, &r)
 			out := map[string]any{"tree": a["tree"], "env": a["env"]}
-			if r != nil {
-				out["f64"], out["f32"] = r["f64"], r["f32"]
+			for _, k := range rawTableKeys {
+				out[k] = r[k]
 			}
 			return out
 		},
 		Judge: judgeInterpolate,
 	})
-	core.Register("c08casters", &core.CheckDef{Real: realCasters, DriverOp: "c08casters", Judge: judgeCasters})
+	core.Register("c08casters", &core.CheckDef{Real: realCasters, DriverOp: "c08casters", Judge: judgeCasters,
+		DriverArgs: func(args, real json.RawMessage) any {
+			var a map[string]json.RawMessage
+			json.Unmarshal(args, &a)
+			var r map[string]json.RawMessage
+			json.Unmarshal(real, &r)
+			out := map[string]any{"s": a["s"]}
+			for _, k := range rawTableKeys {
+				out[k] = r[k]
+			}
+			return out
+		}})
 	core.RegisterProp("C08", runC08)
 }
